@@ -13,6 +13,10 @@
 //   * unknown:   an extra key at every nesting level is reported by the hook
 // Nothing here mirrors the import/export/check_params lists of the library: the table only
 // names members.  A mismatch between the table and the struct does not compile.
+//
+// Implementation note: members are addressed by their byte offset inside the params object
+// (measured on a live object), so that the checking code is compiled once and not once per
+// struct (the first, fully templated version took 2.5 min to compile).
 #pragma once
 #include "c14_pre.hpp"
 #include <amgcl/util.hpp>
@@ -53,42 +57,55 @@ inline void put_value(ptree &t, const std::string &key, const amgcl::preconditio
 template <class T> std::string show(const T &v) { std::ostringstream s; s.precision(17); s << v; return s.str(); }
 
 //--- table ---------------------------------------------------------------------
-template <class P> struct Field {
-    std::string key, type;
-    bool exported = true;        // false: parameter handed over by pointer, not written back by design (recorded as observation)
+struct Field {
+    std::string key, type; size_t offset = 0;   // offset of the member (or of the sub-struct a group field works on) inside the params object
+    bool exported = true;         // false: parameter handed over by pointer, not written back by design (recorded as observation)
     bool optional_in_rep = false; // true: group that is only present in some trees (e.g. near null-space vectors)
     std::vector<std::string> keys;   // tree keys written by this field (== {key} for plain values)
-    std::function<void(Rng&, ptree&, const P &dflt, int variant)> put;   // write a fresh value into the tree and remember it
-    std::function<bool(const P&)> has;                 // member == remembered value
-    std::function<bool(const P&, const P&)> equal;     // member of a == member of b
+    std::function<void(Rng&, ptree&, const void *dflt_member, int variant)> put;   // write a fresh value into the tree and remember it
+    std::function<bool(const void*)> has;                   // member == remembered value
+    std::function<bool(const void*, const void*)> equal;    // two members equal
     std::function<bool(const ptree&, const std::string &pre)> exported_ok;   // typed value under pre+key equals the remembered one
-    std::function<std::string(const P&)> str;
+    std::function<std::string(const void*)> str;
     std::function<std::string()> want;
 };
 
-template <class P> struct Table {
-    std::string component, doc_class;
-    std::vector<Field<P>> fields;
+template <class T> Field value_field(const std::string &key, size_t offset) {
+    Field f; f.key = key; f.type = tname<T>::get(); f.keys.push_back(key); f.offset = offset;
+    auto val = std::make_shared<T>();
+    f.put = [key, val](Rng &r, ptree &t, const void *d, int variant) { *val = genval<T>::make(r, *static_cast<const T*>(d), variant); put_value(t, key, *val); };
+    f.has = [val](const void *m) { return *static_cast<const T*>(m) == *val; };
+    f.equal = [](const void *a, const void *b) { return *static_cast<const T*>(a) == *static_cast<const T*>(b); };
+    f.exported_ok = [key, val](const ptree &o, const std::string &pre) { auto v = o.get_optional<T>(pre + key); return v && *v == *val; };
+    f.str = [](const void *m) { return show(*static_cast<const T*>(m)); };
+    f.want = [val]() { return show(*val); };
+    return f;
+}
+
+// type-erased params object
+struct Ops {
+    void *(*make)(const ptree*) = nullptr;      // nullptr tree: default constructor
+    void (*destroy)(void*) = nullptr;
+    void (*get)(const void*, ptree&, const std::string&) = nullptr;    // params::get(); nullptr when the export is checked elsewhere
+};
+struct Obj { void *p; const Ops *o; Obj(void *p_, const Ops *o_) : p(p_), o(o_) {} ~Obj() { if (p) o->destroy(p); } Obj(const Obj&) = delete; Obj &operator=(const Obj&) = delete; };
+
+struct TableBase {
+    std::string component, doc_class; Ops ops;
+    std::vector<Field> fields;
     std::vector<std::string> levels;            // nesting levels ("" = root, "coarsening", "coarsening.aggr", ...)
     std::vector<std::string> own_names;         // member names of the struct itself (for the documentation pass)
     std::function<void(ptree&)> base;           // mandatory keys of the component (none for most)
-    std::function<P()> make_default;            // P() unless the default constructor is unusable
-    Table(const std::string &c, const std::string &d) : component(c), doc_class(d) { levels.push_back(""); }
+    void child(const std::string &path) { levels.push_back(path); if (path.find('.') == std::string::npos) own_names.push_back(path); }
+};
 
-    template <class G> void add(const std::string &key, G get) {
-        typedef typename std::decay<decltype(get(std::declval<P&>()))>::type T;
-        Field<P> f; f.key = key; f.type = tname<T>::get(); f.keys.push_back(key);
-        auto val = std::make_shared<T>();
-        f.put = [key, get, val](Rng &r, ptree &t, const P &d, int variant) { P dd = d; *val = genval<T>::make(r, get(dd), variant); put_value(t, key, *val); };
-        f.has = [get, val](const P &p) { P q = p; return get(q) == *val; };
-        f.equal = [get](const P &a, const P &b) { P x = a, y = b; return get(x) == get(y); };
-        f.exported_ok = [key, val](const ptree &o, const std::string &pre) { auto v = o.get_optional<T>(pre + key); return v && *v == *val; };
-        f.str = [get](const P &p) { P q = p; return show(get(q)); };
-        f.want = [val]() { return show(*val); };
-        fields.push_back(f);
+template <class P> struct Table : TableBase {
+    std::shared_ptr<P> probe;                   // live object the offsets are measured on
+    template <class M> size_t offset_of(M &m) const { return (size_t)(reinterpret_cast<const char*>(&m) - reinterpret_cast<const char*>(probe.get())); }
+    template <class M> void add(const std::string &key, M &member) {
+        fields.push_back(value_field<typename std::decay<M>::type>(key, offset_of(member)));
         if (key.find('.') == std::string::npos) own_names.push_back(key);
     }
-    void child(const std::string &path) { levels.push_back(path); if (path.find('.') == std::string::npos) own_names.push_back(path); }
 };
 
 inline void collect_leaves(const ptree &t, const std::string &pre, std::vector<std::string> &out) {
@@ -96,44 +113,39 @@ inline void collect_leaves(const ptree &t, const std::string &pre, std::vector<s
 }
 inline std::string first_unknown() { return unknown_log().empty() ? std::string() : unknown_log().front(); }
 inline ptree child_or_empty(const ptree &t, const std::string &path) { if (path.empty()) return t; auto c = t.get_child_optional(path); return c ? *c : ptree(); }
-inline bool tree_equal(const ptree &a, const ptree &b) { return a == b; }
+inline void erase_path(ptree &t, const std::string &path) { size_t d = path.rfind('.'); if (d == std::string::npos) { t.erase(path); return; } if (auto c = t.get_child_optional(path.substr(0, d))) c->erase(path.substr(d + 1)); }
 
-struct TableStats { long fields = 0, structs = 0; };
-inline TableStats &table_stats() { static TableStats s; return s; }
 // (doc_class -> own member names) for the documentation pass
 inline std::map<std::string, std::set<std::string>> &table_members() { static std::map<std::string, std::set<std::string>> m; return m; }
 
-template <class P, bool WithExport> struct exporter;
-template <class P> struct exporter<P, true> { static void get(const P &p, ptree &o, const std::string &path) { p.get(o, path); } };
-template <class P> struct exporter<P, false> { static void get(const P &, ptree &, const std::string &) {} };
-
 // One case of the sub-check "param_table": component x repetition.
-template <class P, bool WithExport = true> void run_table(Table<P> &tb, long idx, int rep) {
-    const std::string &C = tb.component;
+inline void run_table(TableBase &tb, long idx, int rep) {
+    const std::string &C = tb.component; const bool WithExport = tb.ops.get != nullptr;
     for (auto &n : tb.own_names) table_members()[tb.doc_class].insert(n);
     if (!vf::selected("param_table", idx)) return;
     Rng r(vf::case_seed("param_table", idx));
     Case c("param_table", idx, J().s("component", C).n("rep", rep).n("fields", tb.fields.size()).bl("export_checked", WithExport));
+    auto mem = [](const Obj &o, const Field &f) { return static_cast<const void*>(static_cast<const char*>(o.p) + f.offset); };
     try {
-        P dflt = tb.make_default ? tb.make_default() : P();
         ptree base; if (tb.base) tb.base(base);
+        Obj dflt(tb.ops.make(tb.base ? &base : nullptr), &tb.ops);
         // defaults
-        { unknown_log().clear(); P e(base);
-          for (auto &f : tb.fields) if (!f.optional_in_rep) c.check(f.equal(e, dflt), "param:" + C + "." + f.key + ":empty-tree-differs-from-default", "member built from an empty tree is " + f.str(e) + ", default-constructed member is " + f.str(dflt));
+        { unknown_log().clear(); Obj e(tb.ops.make(&base), &tb.ops);
+          for (auto &f : tb.fields) if (!f.optional_in_rep) c.check(f.equal(mem(e, f), mem(dflt, f)), "param:" + C + "." + f.key + ":empty-tree-differs-from-default", "member built from an empty tree is " + f.str(mem(e, f)) + ", default-constructed member is " + f.str(mem(dflt, f)));
           c.check(unknown_log().empty(), "param:" + C + ":valid-key-reported-unknown:" + first_unknown(), "mandatory key reported as unknown"); }
         // import of a full tree
         int variant = rep == 0 ? 0 : 1 + rep % 2;
         ptree t = base; std::vector<char> present(tb.fields.size(), 1);
-        for (size_t k = 0; k < tb.fields.size(); ++k) { auto &f = tb.fields[k]; if (f.optional_in_rep && rep % 2 == 1) { present[k] = 0; continue; } f.put(r, t, dflt, variant); }
+        for (size_t k = 0; k < tb.fields.size(); ++k) { auto &f = tb.fields[k]; if (f.optional_in_rep && rep % 2 == 1) { present[k] = 0; continue; } f.put(r, t, mem(dflt, f), variant); }
         unknown_log().clear();
-        P p(t);
+        Obj p(tb.ops.make(&t), &tb.ops);
         c.check(unknown_log().empty(), "param:" + C + ":valid-key-reported-unknown:" + first_unknown(), "a documented key was reported through the unknown-parameter hook");
         for (size_t k = 0; k < tb.fields.size(); ++k) { auto &f = tb.fields[k]; if (!present[k]) continue;
-            c.check(f.has(p), "param:" + C + "." + f.key + ":not-imported", "tree value " + f.want() + " did not reach the member (member = " + f.str(p) + ")"); c.nontrivial(); }
+            c.check(f.has(mem(p, f)), "param:" + C + "." + f.key + ":not-imported", "tree value " + f.want() + " did not reach the member (member = " + f.str(mem(p, f)) + ")"); c.nontrivial(); }
         // export
         if (WithExport) {
             std::string pre = rep % 2 ? "x.y." : "";
-            ptree out; exporter<P, WithExport>::get(p, out, pre);
+            ptree out; tb.ops.get(p.p, out, pre);
             for (size_t k = 0; k < tb.fields.size(); ++k) { auto &f = tb.fields[k]; if (!present[k]) continue;
                 if (!f.exported) { vf::obs_add("pointer_params_not_exported_by_design", C + "." + f.key); continue; }
                 bool there = (bool)out.get_optional<std::string>(pre + f.key);
@@ -141,37 +153,38 @@ template <class P, bool WithExport = true> void run_table(Table<P> &tb, long idx
                 c.check(f.exported_ok(out, pre), "param:" + C + "." + f.key + ":export-differs", "exported text '" + out.get<std::string>(pre + f.key) + "' is not the imported value " + f.want());
                 c.check(out.get<std::string>(pre + f.key) == t.get<std::string>(f.key), "param:" + C + "." + f.key + ":export-text-differs", "exported text '" + out.get<std::string>(pre + f.key) + "' differs from the imported text '" + t.get<std::string>(f.key) + "'");
             }
+            ptree sub = child_or_empty(out, pre.empty() ? "" : "x.y");
             // keys exported but not in the table: the table is incomplete (coverage observation, not a violation)
-            { std::vector<std::string> leaves; ptree sub = child_or_empty(out, pre.empty() ? "" : "x.y"); collect_leaves(sub, "", leaves); std::set<std::string> known; for (auto &f : tb.fields) for (auto &k : f.keys) known.insert(k);
+            { std::vector<std::string> leaves; collect_leaves(sub, "", leaves); std::set<std::string> known; for (auto &f : tb.fields) for (auto &k : f.keys) known.insert(k);
               for (auto &l : leaves) if (!known.count(l)) vf::obs_add("exported_keys_missing_from_table", C + "." + l); }
             // import of the export, and export again
-            ptree sub = child_or_empty(out, pre.empty() ? "" : "x.y");
-            for (size_t k = 0; k < tb.fields.size(); ++k) if (!tb.fields[k].exported && present[k]) for (auto &key : tb.fields[k].keys) if (auto v = t.get_child_optional(key)) sub.put_child(key, *v);   // pointer parameters are handed over again
             if (tb.base) { ptree b; tb.base(b); for (auto &kv : b) if (!sub.get_child_optional(kv.first)) sub.put_child(kv.first, kv.second); }
+            for (size_t k = 0; k < tb.fields.size(); ++k) if (!tb.fields[k].exported && present[k]) for (auto &key : tb.fields[k].keys) {   // pointer parameters are handed over again
+                erase_path(sub, key); if (auto v = t.get_child_optional(key)) sub.put_child(key, *v); }
             unknown_log().clear();
-            P q(sub);
+            Obj q(tb.ops.make(&sub), &tb.ops);
             c.check(unknown_log().empty(), "param:" + C + ":exported-key-reported-unknown:" + first_unknown(), "a key written by params::get() is rejected by the import of the same struct");
-            for (size_t k = 0; k < tb.fields.size(); ++k) { auto &f = tb.fields[k]; if (!present[k]) continue; c.check(f.equal(p, q), "param:" + C + "." + f.key + ":reimport-differs", "member after import(export(p)) is " + f.str(q) + ", was " + f.str(p)); }
-            ptree out2; exporter<P, WithExport>::get(q, out2, pre);
-            c.check(tree_equal(out, out2), "param:" + C + ":export-import-export-not-identity", "export(import(export(p))) differs from export(p)");
-        }
-        // isolation: one key at a time
-        for (size_t k = 0; k < tb.fields.size(); ++k) {
-            ptree t1 = base; tb.fields[k].put(r, t1, dflt, 0);
-            unknown_log().clear(); P p1(t1);
-            c.check(tb.fields[k].has(p1), "param:" + C + "." + tb.fields[k].key + ":not-imported-alone", "single-key tree did not reach the member (member = " + tb.fields[k].str(p1) + ", wanted " + tb.fields[k].want() + ")");
-            for (size_t m = 0; m < tb.fields.size(); ++m) if (m != k && !tb.fields[m].optional_in_rep)
-                c.check(tb.fields[m].equal(p1, dflt), "param:" + C + "." + tb.fields[k].key + ":also-changes:" + tb.fields[m].key, "setting one key changed another member to " + tb.fields[m].str(p1));
-            c.check(unknown_log().empty(), "param:" + C + ":valid-key-reported-unknown:" + first_unknown(), "a documented key was reported through the unknown-parameter hook");
+            for (size_t k = 0; k < tb.fields.size(); ++k) { auto &f = tb.fields[k]; if (!present[k]) continue; c.check(f.equal(mem(p, f), mem(q, f)), "param:" + C + "." + f.key + ":reimport-differs", "member after import(export(p)) is " + f.str(mem(q, f)) + ", was " + f.str(mem(p, f))); }
+            ptree out2; tb.ops.get(q.p, out2, pre);
+            c.check(out == out2, "param:" + C + ":export-import-export-not-identity", "export(import(export(p))) differs from export(p)");
         }
         // unknown keys at every nesting level
         for (auto &lvl : tb.levels) for (int kind = 0; kind < 2; ++kind) {
             std::string name = kind ? "vf_bogus_group" : "vf_bogus_key", lv = lvl.empty() ? "<root>" : lvl;
             ptree t2 = t; t2.put((lvl.empty() ? "" : lvl + ".") + name + (kind ? ".inner" : ""), 1);
-            unknown_log().clear(); P p2(t2);
+            unknown_log().clear(); Obj p2(tb.ops.make(&t2), &tb.ops);
             bool seen = false; for (auto &u : unknown_log()) { if (u == name) seen = true; else c.fail("unknown:" + C + ":" + lv + ":other-key-reported:" + u, "injecting an extra key made the hook report a different key"); }
             c.check(seen, "unknown:" + C + ":" + lv + ":not-reported", "extra key '" + name + "' at level '" + lv + "' was dropped silently");
-            for (size_t k = 0; k < tb.fields.size(); ++k) if (present[k]) c.check(tb.fields[k].has(p2), "unknown:" + C + ":" + lv + ":disturbs:" + tb.fields[k].key, "an extra key changed the import of a documented one");
+            for (size_t k = 0; k < tb.fields.size(); ++k) if (present[k]) c.check(tb.fields[k].has(mem(p2, tb.fields[k])), "unknown:" + C + ":" + lv + ":disturbs:" + tb.fields[k].key, "an extra key changed the import of a documented one");
+        }
+        // isolation: one key at a time (last: it overwrites the remembered values)
+        for (size_t k = 0; k < tb.fields.size(); ++k) { auto &fk = tb.fields[k];
+            ptree t1 = base; fk.put(r, t1, mem(dflt, fk), 0);
+            unknown_log().clear(); Obj p1(tb.ops.make(&t1), &tb.ops);
+            c.check(fk.has(mem(p1, fk)), "param:" + C + "." + fk.key + ":not-imported-alone", "single-key tree did not reach the member (member = " + fk.str(mem(p1, fk)) + ", wanted " + fk.want() + ")");
+            for (size_t m = 0; m < tb.fields.size(); ++m) { auto &fm = tb.fields[m]; if (m != k && !fm.optional_in_rep && fm.offset != fk.offset)
+                c.check(fm.equal(mem(p1, fm), mem(dflt, fm)), "param:" + C + "." + fk.key + ":also-changes:" + fm.key, "setting one key changed another member to " + fm.str(mem(p1, fm))); }
+            c.check(unknown_log().empty(), "param:" + C + ":valid-key-reported-unknown:" + first_unknown(), "a documented key was reported through the unknown-parameter hook");
         }
         vf::obs_sum("table_struct_cases"); vf::obs_sum("table_field_evaluations", (double)tb.fields.size());
         vf::obs_add("table_components", C);
@@ -184,13 +197,22 @@ template <class P, bool WithExport = true> void run_table(Table<P> &tb, long idx
 //--- field-list macros ----------------------------------------------------------
 // C14_FIELDS(TYPE) { C14_VAL(member) ... C14_CHILD(member) ... }   defines the overload add_fields(tb, prefix, accessor, (TYPE*)0)
 #define C14_FIELDS(...) template <class P, class A> void add_fields(::c14::Table<P> &tb, const std::string &pre, A acc, __VA_ARGS__ *)
-#define C14_VAL(m) tb.add(pre + #m, [acc](P &p) -> auto& { return acc(p).m; });
+#define C14_VAL(m) tb.add(pre + #m, acc(*tb.probe).m);
 #define C14_CHILD(m) { tb.child(pre + #m); auto sub = [acc](P &p) -> auto& { return acc(p).m; }; \
     add_fields(tb, pre + #m ".", sub, (typename std::decay<decltype(acc(std::declval<P&>()).m)>::type*)0); }
 
 C14_FIELDS(amgcl::detail::empty_params) {}
 
-template <class P> Table<P> make_table(const std::string &component, const std::string &doc_class) {
-    Table<P> tb(component, doc_class); add_fields(tb, "", [](P &p) -> P& { return p; }, (P*)0); return tb;
+template <class P> void *ops_make(const ptree *t) { return t ? new P(*t) : new P(); }
+template <class P> void ops_destroy(void *p) { delete static_cast<P*>(p); }
+template <class P> void ops_get(const void *p, ptree &o, const std::string &path) { static_cast<const P*>(p)->get(o, path); }
+
+// WithExport = false: params::get() of this struct is NOT instantiated in this translation unit
+template <class P, bool WithExport = true> Table<P> make_table(const std::string &component, const std::string &doc_class, std::function<void(ptree&)> base = nullptr) {
+    Table<P> tb; tb.component = component; tb.doc_class = doc_class; tb.levels.push_back(""); tb.base = base;
+    tb.ops.make = &ops_make<P>; tb.ops.destroy = &ops_destroy<P>;
+    if constexpr (WithExport) tb.ops.get = &ops_get<P>;
+    if (base) { ptree b; base(b); tb.probe.reset(new P(b)); } else tb.probe.reset(new P());
+    add_fields(tb, "", [](P &p) -> P& { return p; }, (P*)0); return tb;
 }
 } // namespace c14
